@@ -38,6 +38,7 @@ type Bucket struct {
 	collectionFeeds map[sgbucket.DataStoreNameImpl][]*dcpFeed
 	mutex           *sync.Mutex    // mutex for synchronized access to Bucket
 	postMutex       *sync.Mutex    // makes "commit a mutation, then post its event" one step; see withNewCas
+	storeClosed     *atomic.Bool   // set once the underlying store has been shut down (shared by all handles)
 	sqliteDB        *sql.DB        // SQLite database handle (do not access; call db() instead)
 	expManager      *expiryManager // expiration manager for bucket
 	serial          uint32         // Serial number for logging
@@ -171,6 +172,7 @@ func OpenBucket(urlStr string, bucketName string, mode OpenMode) (b *Bucket, err
 		collectionFeeds: make(map[sgbucket.DataStoreNameImpl][]*dcpFeed),
 		mutex:           &sync.Mutex{},
 		postMutex:       &sync.Mutex{},
+		storeClosed:     &atomic.Bool{},
 		inMemory:        inMemory,
 		serial:          serial,
 	}
@@ -391,6 +393,7 @@ func (b *Bucket) copy() *Bucket {
 		collections:     make(collectionsMap),
 		mutex:           b.mutex,
 		postMutex:       b.postMutex,
+		storeClosed:     b.storeClosed,
 		sqliteDB:        b.sqliteDB,
 		expManager:      b.expManager,
 		serial:          b.serial,
